@@ -26,7 +26,7 @@ def cases(ctx):
 
     for fcfg in ipref.file_configs(rng, ctx.per_shard(ctx.pick(200, 4000)), quick=ctx.quick):
         fcfg["B6"] = rng.choice([1, 8, 8, 16, 64, 127, 128, fcfg["B6"]])
-        yield {"kind": "file", "fcfg": fcfg, "aseed": rng.getrandbits(32)}
+        yield {"kind": "file", "fcfg": fcfg, "aseed": rng.getrandbits(32), "via_files": rng.random() < 0.5}
     for cfg in ipgen.configs(rng, ctx.pick(1, 4), fam=4, quick=ctx.quick):
         cfg["salter"] = "default"
         cfg["B"] = rng.choice([None, 0, 8])
@@ -55,8 +55,27 @@ def _file(ctx, case):
     fa = ipref.file_anonymizer(fcfg)
     ref = ipref.Ref(fcfg)
     B = {"v4": fcfg.get("B4") or 0, "v6": fcfg.get("B6") or 0}
-    for segs in lns:
-        out = ipref.run_io(fa, L.text_of(segs) + "\n")[:-1]
+    outs_files = None
+    if case.get("via_files"):
+        import os
+        import tempfile
+
+        from .. import load
+
+        nc = load.nc()
+        pp, pa = fcfg.get("pp"), fcfg.get("pa")
+        os.makedirs(os.path.join(load.VERIF, ".work"), exist_ok=True)
+        with tempfile.TemporaryDirectory(dir=os.path.join(load.VERIF, ".work")) as d:
+            with open(os.path.join(d, "in.cfg"), "w", encoding="utf-8") as f:
+                f.write("".join(L.text_of(s) + "\n" for s in lns))
+            nc.af.anonymize_files(os.path.join(d, "in.cfg"), os.path.join(d, "out.cfg"), False, True, salt=fcfg["salt"],
+                                  preserve_prefixes=None if pp is None else list(pp), preserve_networks=None if pa is None else list(pa),
+                                  preserve_suffix_v4=fcfg.get("B4"), preserve_suffix_v6=fcfg.get("B6"))
+            with open(os.path.join(d, "out.cfg"), encoding="utf-8") as f:
+                outs_files = f.read().split("\n")
+        ctx.count("anonymize_files_runs")
+    for li, segs in enumerate(lns):
+        out = outs_files[li] if outs_files is not None else ipref.run_io(fa, L.text_of(segs) + "\n")[:-1]
         pairs = c17.read_pairs(segs, out)
         ctx.ev()
         if pairs is None:
